@@ -158,3 +158,100 @@ def spec_drop(ck):
             v = pushes[0][1]
             ex.prove(s, 'C16/drop/queued-record-is-this-connections-record', isinstance(v, Ref) and v.cell == props.cell)
     ck.absorb(ex, 'Drop for Context', finals)
+
+
+# =========================================================================== one tick of the gc task: bounded, newest-first history
+
+def spec_gc_tick(ck, batch=3, old=2):
+    cands = [f for f in ck.db.fns if f.name.endswith('gc_thread::{closure#0}')]
+    if len(cands) != 1:
+        ck.add('gc_thread', 'undecided', 'anchor_missing (%d candidates)' % len(cands))
+        return
+    body = ck.target(cands[0])
+    ex = ck.engine(loop_bound=batch + old + 3, call_depth=8)
+    ex.benign_havoc = re.compile(r'.')
+    ex.havoc_result_ok = True
+    st = State()
+    gsf = ['history_size', 'next_id', 'alive', 'terminated', 'gc_list', 'access_log', 'default_timeout']
+    pf = ck.si.structs.get('ContextProps', [])
+    H = z3.BitVec('history_size', 64)
+    ex.assume(st, z3.ULE(H, BV(batch + old + 1, 64)))
+    ids = [z3.BitVec('ended_id%d' % i, 64) for i in range(batch)]
+    oldids = [z3.BitVec('history_id%d' % i, 64) for i in range(old)]
+
+    def props(idt):
+        return Ref(st.alloc(Agg('ContextProps', {pf.index('id'): Int(idt, 64)})), ())
+    nold = z3.BitVec('history_len', 64)        # current history: a prefix of `old` entries, within the bound
+    gc_list = SeqV.from_items([props(t) for t in ids], 'Arc<ContextProps>', 'vec')
+    old_items = [props(t) for t in oldids]
+    snaps = []
+    for m in range(old + 1):
+        s0 = st.fork()
+        ex.assume(s0, z3.ULE(BV(m, 64), H))     # invariant: the history already respects the bound
+        gs = Agg('context::GlobalState', {gsf.index('history_size'): Int(H, 64), gsf.index('gc_list'): gc_list,
+                                          gsf.index('terminated'): SeqV.from_items(old_items[:m], 'Arc<ContextProps>', 'list'),
+                                          gsf.index('alive'): Opaque('HashMap', 'alive'), gsf.index('access_log'): C.mk_option(ex, None)})
+        gcell = s0.alloc(gs)
+        arc = Ref(gcell, ())
+
+        def field_ref(name):
+            return Ref(gcell, (('f', gsf.index(name), 'x'),))
+
+        def std_lock(ctx):
+            return C.mk_result(ctx.ex, ok=field_ref('gc_list'))
+
+        def tokio_lock(ctx):
+            which = 'terminated' if 'LinkedList' in ctx.callee else 'alive'
+            return Future('lockref', [which])
+
+        @CA.awaiter('lockref')
+        def _aw(ctx, fut):
+            return field_ref(fut.args[0])
+
+        def sleep(ctx):
+            n = ctx.st.env.get('sleeps', 0) + 1
+            ctx.st.env['sleeps'] = n
+            if n >= 2:
+                snaps.append((ctx.st.fork(), gcell, m))
+                ctx.st.status = 'dead'
+                from engine import DIVERGE
+                return DIVERGE
+            return Future('unit', [])
+
+        def alive_remove(ctx):
+            k = ctx.ex.deref(ctx.st, ctx.args[1])
+            ctx.st.trace.append(('alive.remove', k.t if isinstance(k, Int) else None))
+            return C.mk_option(ctx.ex, Opaque('Weak', 'w'))
+        ex.overrides[:] = [(re.compile(r'^std::sync::Mutex::<.*>::lock$'), std_lock), (re.compile(r'^tokio::sync::Mutex::<.*>::lock$'), tokio_lock),
+                           (re.compile(r'^tokio::time::sleep$'), sleep), (re.compile(r'^HashMap::<u64, .*>::remove::<u64>$'), alive_remove)]
+        co = Agg('{async block@gc}', {0: arc}, 0, {}, None)
+        ccell = s0.alloc(co)
+        s0.frames = []
+        ex.push_frame(s0, body, [Ref(ccell, ()), Opaque('Context', 'cx')], None, None)
+        ex.run(s0)
+    ex.inputs = {'history_size': H}
+    if not snaps:
+        ck.add('C16/gc/reachability', 'vacuous', 'the gc task never completed one tick in the model')
+    for s, gcell, m in snaps:
+        g = s.mem[gcell]
+        hist = g.fields[gsf.index('terminated')]
+        pending = g.fields[gsf.index('gc_list')]
+        ex.prove(s, 'C16/gc/collected-batch-is-consumed', isinstance(pending, SeqV) and pending.items is not None and len(pending.items) == 0)
+        if not (isinstance(hist, SeqV) and hist.items is not None):
+            ck.add('C16/gc/shape', 'inconclusive', 'history not an explicit list')
+            continue
+        n = len(hist.items)
+        ex.prove(s, 'C16/gc/history-never-exceeds-its-configured-size', z3.ULE(BV(n, 64), H))
+        total = batch + m
+        ex.prove(s, 'C16/gc/history-keeps-as-many-entries-as-the-bound-allows', z3.Or(BV(n, 64) == H, n == total))
+        expected = list(reversed(ids)) + oldids[:m]
+        for i, ref in enumerate(hist.items):
+            p = ex.deref(s, ref)
+            pid = p.fields.get(pf.index('id')) if isinstance(p, Agg) else None
+            ex.prove(s, 'C16/gc/history-is-newest-first', pid.t == expected[i] if isinstance(pid, Int) else False)
+        rem = [e[1] for e in s.trace if e[0] == 'alive.remove']
+        ex.prove(s, 'C16/gc/each-ended-connection-leaves-the-live-list-exactly-once', len(rem) == batch and all(r is not None for r in rem))
+        if len(rem) == batch and all(r is not None for r in rem):
+            ex.prove(s, 'C16/gc/live-list-removals-are-the-ended-ids', z3.And([rem[i] == ids[i] for i in range(batch)]))
+    ck.absorb(ex, 'gc_thread (one tick)', None)
+    ck.bounds['gc-tick'] = 'one tick of the gc task: %d ended connections, existing history of 0..%d entries within the bound, history_size 0..%d symbolic, no access log' % (batch, old, batch + old + 1)
